@@ -14,6 +14,9 @@ CONSTANTS
   MaxDup = 1
   MaxPopCalls = 2
   MaxMidFlush = 1
+  Eagers = {FALSE, TRUE}
+  Holds = {0}
+  HoldFors = {0}
   Algo = "ring"
   Impl = "asis"
   Sampling = FALSE
